@@ -182,6 +182,14 @@ func (e *Engine) VerifyFunc(full string) *FuncResult {
 		}
 		runWith(0, st, args, env)
 	}()
+	if ct != nil {
+		for i := range ct.CallSites {
+			if ct.CallSites[i].Hits == 0 && len(fr.Errors) == 0 {
+				fr.Errors = append(fr.Errors, "callsite clause for "+ct.CallSites[i].Callee+" never applied (no such call on any path): vacuous")
+			}
+			ct.CallSites[i].Hits = 0
+		}
+	}
 	return fr
 }
 
